@@ -211,6 +211,20 @@ def check(ctx):
         '(values[mid - 1] + values[mid]) / 2' in mb and 'return values[mid]' in mb
     run.check(ok, 'AGG', md.where, md.qualname, 'median of the sorted values (mean of the middle two for even counts)', 'median helper changed')
 
+    kc = repo.cls(J + ':KeyCalc')
+    kinit, kcall = kc.methods['__init__'], kc.methods['__call__']
+    from sa.pattern import has_stmt as _hs, has_expr as _he
+    run.rule('KEY', 'KEY-RENDERING: a field-list key becomes the format string "{f1}:{f2}:..." (one separator between components), a '
+                    'format-string key is used as given; the key is rendered from the row with "#" bound to the row number; source '
+                    'and target use the same renderer class')
+    run.check(_he("':'.join(('{%s}' % _k for _k in key_spec))", kinit.node) and _hs('self.key_spec = key_spec', kinit.node), 'KEY',
+              kinit.where, kinit.qualname, "':'.join('{%s}' % key for key in key_spec)",
+              'list keys are not rendered as colon-separated components (two different key tuples could render the same string)')
+    run.check(_hs("return self.key_spec.format(**{**%s, '#': %s})" % (kcall.params[1], kcall.params[2]), kcall.node), 'KEY',
+              kcall.where, kcall.qualname, "key_spec.format(**{**row, '#': row_number})", 'the key is not rendered from the row and its number')
+    run.check(_hs('source_key = KeyCalc(source_key)', aux.node) and
+              _hs('target_key = KeyCalc(target_key) if target_key is not None else target_key', aux.node), 'KEY', aux.where,
+              aux.qualname, 'both keys rendered by KeyCalc', 'source and target keys are rendered by different code')
     run.rule('ORD', 'INDEX-BEFORE-TARGET: the target branch asserts that the source was indexed; mode is one of the three documented '
                     'values; the source must precede the target in the package')
     asserts = [n for n in ast.walk(nri.node) if isinstance(n, ast.Assert) and pseudo(n.test) == 'has_index']
